@@ -21,6 +21,19 @@ def main():
     out = {"ok": False}
     try:
         common.import_repo()
+        # Which of the library's packages an application imports first is its own business: shards alternate between the four
+        # orders, so that registries filled at import time (command tables, bit-name tables, event classes) are exercised in
+        # each.  "lazy" leaves the order to whatever the check imports first.
+        order = ("gear-first", "device-first", "lazy", "memory-first")[(job.get("index", 0) + job["seed"]) % 4]
+        try:
+            if order == "gear-first":
+                importlib.import_module("dali.gear"), importlib.import_module("dali.device")
+            elif order == "device-first":
+                importlib.import_module("dali.device"), importlib.import_module("dali.gear")
+            elif order == "memory-first":
+                importlib.import_module("dali.memory"), importlib.import_module("dali.sequences"), importlib.import_module("dali.gear.general")
+        except Exception:
+            order = "lazy (package import failed)"
         mod = importlib.import_module("props." + prop.lower())
         from vlib import contracts
         if job.get("contracts", getattr(mod, "CONTRACTS", "icontract")) != "none":
@@ -34,6 +47,7 @@ def main():
         for v in c2.violations():
             res.violation(v["key"], v["what"], v["witness"])
         out = res.to_json()
+        out["import_order"] = order
         out["cover"] = reached
         out["ok"] = True
     except BaseException as e:  # harness failure, not a verdict
